@@ -1,11 +1,137 @@
 /-
   ptdriver queries of the `mapper` family: `(mapper <query> args…)`.
   `none` = unparsable query.
+
+  Wire format of a heap: `((kind (tag…) ((edge-class child)…) cls) …)`, node i is the
+  i-th entry (objects numbered by `id()` in post-order by the Python serialiser).
+  An edge selection is given as the list of EXCLUDED `(kind edge-class)` pairs
+  (`*` = any kind); everything else is followed.
 -/
 import PtModel.Sexp
+import PtModel.Mapper
+import PtModel.Analysis
 namespace Pt
 
+def parseNode : Sx → Option NodeData
+  | .list [.atom kind, .list tags, .list kids, cls] => do
+    let ts ← tags.mapM Sx.asAtom?
+    let ks ← kids.mapM fun
+      | .list [.atom l, c] => do some (l, ← c.asNat?)
+      | _ => none
+    some { kind := kind, tags := ts, kids := ks, cls := ← cls.asNat? }
+  | _ => none
+
+def parseHeap : Sx → Option Heap
+  | .list nodes => do some (← nodes.mapM parseNode).toArray
+  | _ => none
+
+def parsePairs : Sx → Option (List (String × String))
+  | .list ps => ps.mapM fun
+    | .list [.atom a, .atom b] => some (a, b)
+    | _ => none
+  | _ => none
+
+def parseAtoms : Sx → Option (List String)
+  | .list xs => xs.mapM Sx.asAtom?
+  | _ => none
+
+/-- selection from an exclusion list -/
+def selOf (excl : List (String × String)) : String → String → Bool :=
+  fun k l => !(excl.any fun p => (p.1 == "*" || p.1 == k) && p.2 == l)
+
+/-- selection from an inclusion list -/
+def onlyOf (incl : List (String × String)) : String → String → Bool :=
+  fun k l => incl.any fun p => (p.1 == "*" || p.1 == k) && p.2 == l
+
+def showIds (l : List Nat) : String := "(" ++ " ".intercalate (l.map toString) ++ ")"
+
+def sortNats (l : List Nat) : List Nat := (l.toArray.qsort (· < ·)).toList
+
+def countedOf (noncounted : List String) (nd : NodeData) : Bool := !(noncounted.contains nd.kind)
+
+/-- tree size: 1 + Σ children (the number of per-node invocations of an UNCACHED mapper) -/
+def sizeSpec (sel : String → String → Bool) : MapperSpec Nat :=
+  { sel := sel, combine := fun _ vs => 1 + vs.sum }
+
+def showOptNat : Option Nat → String
+  | some n => toString n
+  | none => "none"
+
 def handleMapper : List Sx → Option String
+  | [.atom "wf", hp] => do
+    let h ← parseHeap hp
+    some (if wfHeap h then "#t" else "#f")
+  | [.atom "log", hp, root, ex] => do
+    let h ← parseHeap hp
+    some (showIds (visitLog (selOf (← parsePairs ex)) h (← root.asNat?)))
+  | [.atom "cachedsize", hp, root, ex] => do
+    -- memoised evaluation of the tree size (linear time, any sharing)
+    let h ← parseHeap hp
+    let r := runCached (sizeSpec (selOf (← parsePairs ex))) h (← root.asNat?)
+    some s!"{showOptNat r.val} {r.log.length}"
+  | [.atom "treesize", hp, root, ex] => do
+    -- uncached tree recursion (exponential on ladders: small graphs only)
+    let h ← parseHeap hp
+    some (showOptNat (runTree (sizeSpec (selOf (← parsePairs ex))) h (← root.asNat?)))
+  | [.atom "preds", hp, tbl] => do
+    let h ← parseHeap hp
+    let t := selOf (← parsePairs tbl)
+    some ("(" ++ " ".intercalate ((List.range h.size).map fun v => showIds (preds t h v)) ++ ")")
+  | [.atom "users", hp, root, walk, tbl] => do
+    let h ← parseHeap hp
+    let w := selOf (← parsePairs walk)
+    let t := selOf (← parsePairs tbl)
+    let r ← root.asNat?
+    some ("(" ++ " ".intercalate ((List.range h.size).map fun u =>
+      showIds (sortNats (usersList w t h r u))) ++ ")")
+  | [.atom "topo", hp, root, ex, nc] => do
+    let h ← parseHeap hp
+    some (showIds (topo (selOf (← parsePairs ex)) (countedOf (← parseAtoms nc)) h (← root.asNat?)))
+  | [.atom "counts", hp, root, ex, nc] => do
+    let h ← parseHeap hp
+    let s := selOf (← parsePairs ex)
+    let c := countedOf (← parseAtoms nc)
+    let r ← root.asNat?
+    some s!"{countNodesDup s c h r} {countNodesNoDup s c h r}"
+  | [.atom "typecount", hp, root, ex, .atom kind] => do
+    let h ← parseHeap hp
+    some (toString (typeCount (selOf (← parsePairs ex)) h (← root.asNat?) kind))
+  | [.atom "tagcount", hp, root, ex, nc, tags] => do
+    let h ← parseHeap hp
+    let s := selOf (← parsePairs ex)
+    let c := countedOf (← parseAtoms nc)
+    let want ← parseAtoms tags
+    let r ← root.asNat?
+    let bad := (tcVisitBad (kidsFn s h) (fun j => c (h.node j) && hasTags want (h.node j)) (r + 1) r []).1
+    some s!"{tagCount s c want h r} {bad}"
+  | [.atom "materialized", hp, root, ex, matKinds, matTags, matEdges, inc] => do
+    let h ← parseHeap hp
+    let mk ← parseAtoms matKinds
+    let mt ← parseAtoms matTags
+    let me ← parsePairs matEdges
+    let incl := match inc with
+      | .atom "#t" => true
+      | _ => false
+    some (showIds (sortNats (materialized (selOf (← parsePairs ex))
+      (fun nd => mk.contains nd.kind || mt.any fun t => nd.tags.contains t)
+      (onlyOf me) h (← root.asNat?) incl)))
+  | [.atom "transform", hp, root, ex, mode] => do
+    let h ← parseHeap hp
+    let s := selOf (← parsePairs ex)
+    let r ← root.asNat?
+    let relabel ← match mode with
+      | .atom "id" => some relabelId
+      | .list [.atom "tag", .atom kind, .atom t] =>
+        some fun nd => (nd.kind, if nd.kind == kind then nd.tags ++ [t] else nd.tags)
+      | .list [.atom "untag", .atom t] =>
+        -- make nodes equal by dropping a tag (creates duplicates to be merged)
+        some fun nd => (nd.kind, nd.tags.filter (· != t))
+      | _ => none
+    let st := runTransform s relabel h r
+    let img := (visitLog s h r).map fun i => match st.image i with
+      | some j => s!"({i} {j})"
+      | none => s!"({i} none)"
+    some s!"{st.heap.size} {showOptNat (st.image r)} ({" ".intercalate img})"
   | _ => none
 
 end Pt
